@@ -45,6 +45,10 @@ func c20(c *Ctx) {
 	c20index(c)
 	c20concat(c)
 	c20scanBounds(c)
+	c20formats(c)
+	c20errorsRecorded(c)
+	c20verbatim(c)
+	c20zero(c)
 }
 
 // nodeish: *TokenNode, a type with a Format method from package ast, an interface of package ast, or a slice of those.
